@@ -487,6 +487,36 @@ def plainFull (w : World) (rules : Rules) (inv : Inventory) : LoadResult :=
 def indexedFull (w : World) (rules : Rules) (inv : Inventory) : LoadResult :=
   indexed w rules (extend inv (indexedOutcomes w rules inv))
 
+/-! ### the same configuration committed in two stages
+
+  The rule registry (`ApplyRule::m_Rules`) outlives a commit: hosts and services committed later in the same process
+  (`ConfigObjectUtility::CreateObject` → `ConfigItem::CommitItems` with an ActivationContext of its own →
+  `CreateChildObjects` → `EvaluateApplyRules`, configitem.cpp:559-592,610) are evaluated against ALL rules, regular and
+  indexed, exactly like the objects of the first commit.  `ApplyRule::CheckMatches` (applyrule.cpp:153-181) at the end of
+  every commit only reports rules without a match; it does not change the registry. -/
+
+/-- the hosts (with all their services) and the single services that are committed in the second stage -/
+structure Late where
+  hosts : List String
+  services : List (String × String)
+
+def Late.host (l : Late) (h : String) : Bool := l.hosts.contains h
+def Late.service (l : Late) (p : String × String) : Bool := l.hosts.contains p.1 || l.services.contains p
+
+def earlyInv (inv : Inventory) (l : Late) : Inventory :=
+  { hosts := inv.hosts.filter fun h => !l.host h, services := inv.services.filter fun p => !l.service p }
+
+def lateInv (inv : Inventory) (l : Late) : Inventory :=
+  { hosts := inv.hosts.filter l.host, services := inv.services.filter l.service }
+
+/-- every outcome of one whole commit (both rounds of the cascade) of the objects `inv` -/
+def indexedFullOutcomes (w : World) (rules : Rules) (inv : Inventory) : List Outcome :=
+  indexedOutcomes w rules (extend inv (indexedOutcomes w rules inv))
+
+/-- two commits against the same rule registry; an error in either stage is a rejection -/
+def indexedStaged (w : World) (rules : Rules) (inv : Inventory) (l : Late) : LoadResult :=
+  loadResult (indexedFullOutcomes w rules (earlyInv inv l) ++ indexedFullOutcomes w rules (lateInv inv l))
+
 /-! ### the same configuration written in another order
 
   What the harness's permuted variant loads: the rules in reverse order (a `to Service` rule may precede the
@@ -569,6 +599,60 @@ def apiTargets (w : World) (fvars : Option (List (String × Val))) (ty : TgtType
     match getTargetServices (apiConsts fvars) e with
     | some names => some ((names.map fun p => Val.service p.1 p.2).filter fun t => (targets inv .service).contains t)
     | none => apiSlow w fvars ty e inv
+
+/-! ### queries of an ApiUser whose permission carries a filter (filterutility.cpp:143-166,362-384)
+
+  `EvaluatePermissionFilter` runs before the user's filter on every object that is looked at — in `FilteredAddTarget`
+  for evaluated filters, in the loop over the looked-up objects for the fast path.  Which objects the permission filter
+  admits (`perm`; `none`: it raises on that object, which fails the whole query) is an input: the harness evaluates it
+  per object.  An object the permission rejects is never handed to the user's filter (so an error of the user's filter
+  on it does not surface). -/
+
+/-- `provider->FindTargets(type, FilteredAddTarget …)` with a permission filter -/
+def apiSlowP (w : World) (fvars : Option (List (String × Val))) (ty : TgtType) (e : Expr) (inv : Inventory)
+    (perm : Val → Option Bool) : Option (List Val) :=
+  (targets inv ty).foldr (fun t acc =>
+    match perm t with
+    | none => none
+    | some false => acc
+    | some true =>
+      match evalFilter (apiEnv w (fvars.getD []) t) e, acc with
+      | some true, some l => some (t :: l)
+      | some false, some l => some l
+      | _, _ => none) (some [])
+
+/-- the loop over the looked-up objects (filterutility.cpp:362-368): an object is kept when the permission filter
+    admits it; the filter raising on one of them fails the query -/
+def permFilter (perm : Val → Option Bool) : List Val → Option (List Val)
+  | [] => some []
+  | t :: ts =>
+    match perm t, permFilter perm ts with
+    | some true, some l => some (t :: l)
+    | some false, some l => some l
+    | _, _ => none
+
+/-- `FilterUtility::GetFilterTargets` for a user with a permission filter: the looked-up objects pass
+    `EvaluatePermissionFilter` one by one (filterutility.cpp:362-368) -/
+def apiTargetsP (w : World) (fvars : Option (List (String × Val))) (ty : TgtType) (e : Expr) (inv : Inventory)
+    (perm : Val → Option Bool) : Option (List Val) :=
+  if fvarsCollide w ty fvars then apiSlowP w fvars ty e inv perm else
+  match ty with
+  | .host =>
+    match getTargetHosts (apiConsts fvars) e with
+    | some names => permFilter perm ((names.map Val.host).filter fun t => (targets inv .host).contains t)
+    | none => apiSlowP w fvars ty e inv perm
+  | .service =>
+    match getTargetServices (apiConsts fvars) e with
+    | some names =>
+      permFilter perm ((names.map fun p => Val.service p.1 p.2).filter fun t => (targets inv .service).contains t)
+    | none => apiSlowP w fvars ty e inv perm
+
+/-- a permission filter that raises on no object -/
+def totalPerm (p : Val → Bool) : Val → Option Bool := fun t => some (p t)
+
+/-- the objects the permission filter admits: what a restricted user's queries range over -/
+def restrictInv (inv : Inventory) (perm : Val → Bool) : Inventory :=
+  { hosts := inv.hosts.filter fun h => perm (.host h), services := inv.services.filter fun p => perm (.service p.1 p.2) }
 
 /-! ### what the HTTP handlers make of the target list
 
